@@ -100,9 +100,9 @@ Definition ops_on (key : Z) (ops : list (nat * Z * Z * Z)) : list kop :=
       (filter (fun o => snd (fst (fst o)) =? key) (map (fun o => match o with (d, c, k, v) => (d, k, c, v) end) ops)).
 
 (* one cycle: [ops] are (dict, code, key, value) in program order *)
-Definition cycle {S} (B : Z -> body S) (t : Z) (bc : bcarg) (ops : list (nat * Z * Z * Z)) (st : mstate S)
+Definition cycle {S} (B : Z -> body S) (t : Z) (bc : Z -> bcarg) (ops : list (nat * Z * Z * Z)) (st : mstate S)
   : list (Z * (kstate S * kev)) :=
-  map (fun p => (fst p, key_step (B (fst p)) t bc (fst p) (snd p) (ops_on (fst p) ops))) st.
+  map (fun p => (fst p, key_step (B (fst p)) t (bc (fst p)) (fst p) (snd p) (ops_on (fst p) ops))) st.
 
 Definition next_state {S} (r : list (Z * (kstate S * kev))) : mstate S := map (fun p => (fst p, fst (snd p))) r.
 Definition events {S} (r : list (Z * (kstate S * kev))) : list (Z * kev) := map (fun p => (fst p, snd (snd p))) r.
@@ -111,7 +111,9 @@ Fixpoint kget {S} (key : Z) (st : mstate S) : option (kstate S) :=
   match st with [] => None | (k, ks) :: r => if k =? key then Some ks else kget key r end.
 
 (* a history: per cycle the time, the broadcast update and the dictionary operations *)
-Record cyc := mkCyc { c_t : Z; c_bc : bcarg; c_ops : list (nat * Z * Z * Z) }.
+(* [c_bc]: the arguments that are not elements of key-owning dictionaries, as key j's instance sees them in this
+   cycle: broadcast arguments (the same for every key) and elements of no_key dictionaries (per key) *)
+Record cyc := mkCyc { c_t : Z; c_bc : Z -> bcarg; c_ops : list (nat * Z * Z * Z) }.
 
 (* [r_primed]: some dictionary has ticked, so the key set is known and the output dictionary is valid;
    the log records per cycle the time, whether the output became valid in it, and the key events *)
@@ -192,7 +194,7 @@ Fixpoint chain_step (sgs : list stage) (t : Z) (sts : list sstate) (inp : option
   | _, _ => (sts, inp, failed)
   end.
 
-(* front end: x0 = arg 0; KeyMix(key, x0) when the key is consumed; Add2(., arg 1) when there are two arguments *)
+(* front end: x0 = arg 0; KeyMix(key, x0) when the key is consumed; the sum with the other arguments when there are any *)
 (* [vs_skip]: the child graph's evaluation cursor is parked on the node that threw (graph.cpp evaluate_impl,
    DESIGN.md 8.1 / property C15): the child's next evaluation resumes there and evaluates none of the
    nodes before it - with the vocabulary's chains (the throwing node is last) that evaluation does nothing.
@@ -223,13 +225,18 @@ Definition vstep (sp : vspec) (s : vstate) (bi : binput) : vstate * bout :=
      end)
   else
   let '(ad, x2) :=
-    match bi_args bi with
-    | [_; a1] =>
-        match x1, a1 with
-        | (Some v, m), (Some w, m') => if m || m' then (Some (v + w), (Some (v + w), true)) else (vs_add s, (vs_add s, false))
-        | _, _ => (vs_add s, (vs_add s, false))
+    match tl (bi_args bi) with
+    | [] => (vs_add s, x1)
+    | extras =>
+        (* the sum node (Add2 / Add3): needs every input valid, ticks when any input ticked *)
+        match x1 with
+        | (Some v, m) =>
+            if forallb (fun a : option Z * bool => is_some (fst a)) extras && (m || existsb snd extras) then
+              let sm := fold_left (fun acc a => acc + match fst a with Some w => w | None => 0 end) extras v in
+              (Some sm, (Some sm, true))
+            else (vs_add s, (vs_add s, false))
+        | _ => (vs_add s, (vs_add s, false))
         end
-    | _ => (vs_add s, x1)
     end in
   let '(sts, o, f) := chain_step (v_stages sp) (bi_now bi) (vs_sts s) x2 false in
   (mkVS km ad sts (f && lost_tick_after_error),
@@ -252,25 +259,29 @@ Definition stages_of (code p1 p2 : Z) : list stage :=
   else [SAdd 0].
 
 (* ================================================================== decoding and printing *)
-(* case lines:  1 start end | 2 body p1 p2 ndict bcast usekey capture | 3 dict time code key val | 4 time val *)
+(* case lines:  1 start end | 2 body p1 p2 ndict bcast usekey capture [shape] | 3 dict time code key val | 4 time val
+   shape 0 map_(f, d0[, d1][, b]) | 1 map_(f, d0, no_key(d1)[, b]) | 2 map_(f, b, d0, no_key(d1)) | 3 map_(f, b, no_key(d1), d0)
+         4 map_(f, b, d0[, d1])   | 5 map_ over dynamic lists (the index is the key) *)
 Record mcase := mkMC {
   m_start : Z; m_end : Z; m_body : Z; m_p1 : Z; m_p2 : Z; m_ndict : Z; m_bcast : bool; m_usekey : bool; m_capture : bool;
+  m_shape : Z;
   m_dops : list (Z * (nat * Z * Z * Z));     (* time, (dict, code, key, val) in program order *)
   m_bops : list (Z * Z) }.
 
 Definition decode (w : wire) : mcase :=
   fold_left (fun m l =>
     match l with
-    | [1; a; b] => mkMC a b (m_body m) (m_p1 m) (m_p2 m) (m_ndict m) (m_bcast m) (m_usekey m) (m_capture m) (m_dops m) (m_bops m)
-    | [2; b; p1; p2; nd; bc; uk; cap] => mkMC (m_start m) (m_end m) b p1 p2 nd (z2b bc) (z2b uk) (z2b cap) (m_dops m) (m_bops m)
-    | [3; d; t; c; k; v] => mkMC (m_start m) (m_end m) (m_body m) (m_p1 m) (m_p2 m) (m_ndict m) (m_bcast m) (m_usekey m) (m_capture m)
+    | [1; a; b] => mkMC a b (m_body m) (m_p1 m) (m_p2 m) (m_ndict m) (m_bcast m) (m_usekey m) (m_capture m) (m_shape m) (m_dops m) (m_bops m)
+    | [2; b; p1; p2; nd; bc; uk; cap] => mkMC (m_start m) (m_end m) b p1 p2 nd (z2b bc) (z2b uk) (z2b cap) 0 (m_dops m) (m_bops m)
+    | [2; b; p1; p2; nd; bc; uk; cap; sh] => mkMC (m_start m) (m_end m) b p1 p2 nd (z2b bc) (z2b uk) (z2b cap) sh (m_dops m) (m_bops m)
+    | [3; d; t; c; k; v] => mkMC (m_start m) (m_end m) (m_body m) (m_p1 m) (m_p2 m) (m_ndict m) (m_bcast m) (m_usekey m) (m_capture m) (m_shape m)
                                  (m_dops m ++ [(t, (Z.to_nat d, c, k, v))]) (m_bops m)
-    | [3; d; t; c; k; v; _] => mkMC (m_start m) (m_end m) (m_body m) (m_p1 m) (m_p2 m) (m_ndict m) (m_bcast m) (m_usekey m) (m_capture m)
+    | [3; d; t; c; k; v; _] => mkMC (m_start m) (m_end m) (m_body m) (m_p1 m) (m_p2 m) (m_ndict m) (m_bcast m) (m_usekey m) (m_capture m) (m_shape m)
                                  (m_dops m ++ [(t, (Z.to_nat d, c, k, v))]) (m_bops m)
-    | [4; t; v] => mkMC (m_start m) (m_end m) (m_body m) (m_p1 m) (m_p2 m) (m_ndict m) (m_bcast m) (m_usekey m) (m_capture m)
+    | [4; t; v] => mkMC (m_start m) (m_end m) (m_body m) (m_p1 m) (m_p2 m) (m_ndict m) (m_bcast m) (m_usekey m) (m_capture m) (m_shape m)
                         (m_dops m) (m_bops m ++ [(t, v)])
     | _ => m
-    end) w (mkMC 1 10 0 0 0 1 false false false [] []).
+    end) w (mkMC 1 10 0 0 0 1 false false false 0 [] []).
 
 Fixpoint zins (x : Z) (l : list Z) : list Z :=
   match l with [] => [x] | y :: r => if x <? y then x :: l else if x =? y then l else y :: zins x r end.
@@ -295,20 +306,36 @@ Definition d1_at (m : mcase) (t : Z) : list (Z * Z) :=
                           if (tm <=? t) && Nat.eqb di 1 then (if c =? 1 then upd_assoc k v d else if c =? 2 then del_assoc k d else d) else d end)
             (m_dops m) [].
 
-Definition bc_at (m : mcase) (t : Z) : bcarg :=
+(* the second dictionary is a no_key input: de-multiplexed per key, but it does not contribute keys *)
+Definition no_key_shape (m : mcase) : bool := (1 <=? m_shape m) && (m_shape m <=? 3).
+
+(* the number of key-owning dictionaries *)
+Definition m_own (m : mcase) : nat := if no_key_shape m then 1%nat else Z.to_nat (m_ndict m).
+
+(* key j's element of the no_key dictionary 1 at time t: value, and whether it was set in this cycle *)
+Definition side_at (m : mcase) (t : Z) (j : Z) : option Z * bool :=
+  let at_time := fun tm => map snd (filter (fun p => fst p =? tm) (m_dops m)) in
+  (* earlier cycles in TIME order (the case lists operations in program order per cycle, not necessarily by time) *)
+  let before := fold_left (fun v tm => fst (apply_ops 1 (ops_on j (at_time tm)) (v, false)))
+                          (filter (fun tm => tm <? t) (zsort_dedup (map fst (m_dops m)))) None in
+  apply_ops 1 (ops_on j (at_time t)) (before, false).
+
+Definition bc_at (m : mcase) (t : Z) (j : Z) : bcarg :=
   if m_body m =? 6 then
     let d := d1_at m t in
     let valid := existsb (fun p => match p with (tm, (di, c, _, _)) => (tm <=? t) && Nat.eqb di 1 && (c =? 1) end) (m_dops m) in
     let md := existsb (fun p => match p with (tm, (di, _, _, _)) => (tm =? t) && Nat.eqb di 1 end) (m_dops m) in
     if valid then [(Some (fold_left (fun a p => a + snd p) d 0), md); (Some (Z.of_nat (length d)), md)] else [(None, false); (None, false)]
-  else if m_bcast m then
-    [(match filter (fun p => fst p <=? t) (m_bops m) with [] => None | p :: r => Some (snd (last r p)) end,
-      existsb (fun p => fst p =? t) (m_bops m))]
-  else [].
+  else
+    (if no_key_shape m then [side_at m t j] else []) ++
+    (if m_bcast m then
+       [(match filter (fun p => fst p <=? t) (m_bops m) with [] => None | p :: r => Some (snd (last r p)) end,
+         existsb (fun p => fst p =? t) (m_bops m))]
+     else []).
 
 Definition cyc_at (m : mcase) (t : Z) : cyc :=
   mkCyc t (bc_at m t)
-        (filter (fun o => Nat.ltb (fst (fst (fst o))) (Z.to_nat (m_ndict m))) (map snd (filter (fun p => fst p =? t) (m_dops m)))).
+        (filter (fun o => Nat.ltb (fst (fst (fst o))) (m_own m)) (map snd (filter (fun p => fst p =? t) (m_dops m)))).
 
 Fixpoint drive {S} (B : Z -> body S) (m : mcase) (fuel : nat) (t : Z) (r : run_state S) : run_state S :=
   match fuel with
@@ -323,8 +350,10 @@ Fixpoint drive {S} (B : Z -> body S) (m : mcase) (fuel : nat) (t : Z) (r : run_s
 (* observation lines of one cycle; keys come in increasing order from the state *)
 Definition zcount {A} (f : A -> bool) (l : list A) : Z := Z.of_nat (length (filter f l)).
 
-Definition cycle_lines (usekey counts : bool) (t : Z) (prime : bool) (evs : list (Z * kev)) (valid_before : list (Z * Z))
-           (live_after : list Z) (all_after : list (Z * Z)) : list line :=
+(* [lc]: the output ticks when a child starts or stops (an owned dictionary gains / loses an element); a list output
+   only grows silently and ticks with its elements *)
+Definition cycle_lines (usekey counts capture lc : bool) (t : Z) (prime : bool) (evs : list (Z * kev)) (valid_before : list (Z * Z))
+           (live_after : list Z) (all_after : list (Z * Z)) (errs_before : list Z) : list line :=
   let starts := filter (fun p => ev_start (snd p)) evs in
   let stops := filter (fun p => ev_stop (snd p)) evs in
   let outs := flat_map (fun p => match ev_out (snd p) with Some v => [(fst p, v)] | None => [] end) evs in
@@ -336,16 +365,19 @@ Definition cycle_lines (usekey counts : bool) (t : Z) (prime : bool) (evs : list
   (if counts then match stops with [] => [] | _ => [[21; t; Z.of_nat (length stops)]] end else []) ++
   (if usekey then match starts with [] => [] | _ => [22 :: t :: map fst starts] end else []) ++
   (if usekey then match stops with [] => [] | _ => [23 :: t :: map fst stops] end else []) ++
-  (match starts, stops, outs, prime with
+  (match (if lc then starts else []), (if lc then stops else []), outs, prime && lc with
    | [], [], [], false => []
    | _, _, _, _ => [[30; t]; 31 :: t :: removed; 32 :: t :: flat outs; [33; t]; 34 :: t :: flat all_after;
                  35 :: t :: live_after; 36 :: t :: added]
    end) ++
-  (match errs with [] => [] | _ => [37 :: t :: errs] end).
+  (* the error dictionary ticks exactly when a child raised (those keys) or a key that has an error entry is removed *)
+  (let erem := filter (fun k => existsb (Z.eqb k) errs_before) (map fst stops) in
+   if capture then match errs, erem with [], [] => [] | _, _ => [37 :: t :: errs; 38 :: t :: erem] end else []).
 
 (* replay the log (oldest first) keeping the valid-element dictionary and the live key set *)
 
-Fixpoint print_log (usekey counts : bool) (log : list (Z * bool * list (Z * kev))) (valid : list (Z * Z)) (live : list Z) : list line :=
+Fixpoint print_log_e (usekey counts capture lc : bool) (log : list (Z * bool * list (Z * kev))) (valid : list (Z * Z)) (live : list Z)
+         (errs : list Z) : list line :=
   match log with
   | [] => []
   | (t, prime, evs) :: r =>
@@ -353,8 +385,13 @@ Fixpoint print_log (usekey counts : bool) (log : list (Z * bool * list (Z * kev)
                                          else if ev_start (snd p) then zins (fst p) l else l) evs live in
       let valid1 := fold_left (fun l p => if ev_stop (snd p) then del_assoc (fst p) l
                                           else match ev_out (snd p) with Some v => upd_assoc (fst p) v l | None => l end) evs valid in
-      cycle_lines usekey counts t prime evs valid live1 valid1 ++ print_log usekey counts r valid1 live1
+      let errs1 := fold_left (fun l p => if ev_stop (snd p) then filter (fun k => negb (k =? fst p)) l
+                                         else if ev_err (snd p) then zins (fst p) l else l) evs errs in
+      cycle_lines usekey counts capture lc t prime evs valid live1 valid1 errs ++ print_log_e usekey counts capture lc r valid1 live1 errs1
   end.
+
+Definition print_log (usekey counts : bool) (log : list (Z * bool * list (Z * kev))) (valid : list (Z * Z)) (live : list Z) : list line :=
+  print_log_e usekey counts true true log valid live [].
 
 Definition final_lines (usekey counts : bool) (live : list Z) : list line :=
   (if counts then [[24; Z.of_nat (length live)]] else []) ++ (if usekey then [25 :: live] else []).
@@ -367,6 +404,6 @@ Definition run_map (w : wire) : wire :=
   let sp := mkV (m_usekey m) (m_body m =? 6) (stages_of (m_body m) (m_p1 m) (m_p2 m)) in
   let counts := negb (m_body m =? 6) in
   let B := fun _ : Z => vbody sp in
-  let r0 : run_state vstate := start_state (Z.to_nat (m_ndict m)) keys in
+  let r0 : run_state vstate := start_state (m_own m) keys in
   let r := drive B m (Z.to_nat (m_end m - m_start m + 2)) (m_start m - 1) r0 in
-  print_log (m_usekey m) counts (rev (r_log r)) [] [] ++ final_lines (m_usekey m) counts (live_keys (r_st r)).
+  print_log_e (m_usekey m) counts (m_capture m) (negb (m_shape m =? 5)) (rev (r_log r)) [] [] [] ++ final_lines (m_usekey m) counts (live_keys (r_st r)).
